@@ -27,6 +27,11 @@ VENV_PY = "/venv/bin/python"
 PROPS = os.path.join(ROOT, "properties.py")
 
 
+def _split_unit(u):
+    from pyvc.contracts import split_unit
+    return split_unit(u)
+
+
 def slug(text: str) -> str:
     h = hashlib.sha256(text.encode()).hexdigest()[:10]
     s = re.sub(r"[^A-Za-z0-9_.-]+", "_", text)[:80]
@@ -58,43 +63,42 @@ def verify_unit(job):
             out["kind"] = "harness"
             ex.verify_harness(reg.harnesses[name])
         else:
-            c = reg.contracts[name]
-            mi, ci, fn = repo.find_function(name)
+            from pyvc.contracts import split_unit
+            base, _inst = split_unit(name)
+            c = reg.contracts[base]
+            mi, ci, fn = repo.find_function(base)
             out["source_hash"] = repo.source_hash(fn)
             if c.trusted:
                 out["kind"] = "trusted"
                 out["status"] = "trusted"
                 return out
-            ex.verify_function(name, c, mi, ci, fn)
+            ex.verify_function(base, c, mi, ci, fn)
         out["gen_s"] = time.time() - t0
         out["assumptions"] = list(ex.assumptions)
         out["used_contracts"] = sorted(ex.used_contracts)
         out["trivial"] = ex.trivial
         t1 = time.time()
         for ob in ex.obligations:
-            r = solve.check(ob.hyps, ob.goal, extra=ex.global_facts)
+            post = (lambda m: cex.extract_inputs(ex, m)) if (want_cex and out["kind"] != "lemma") else None
+            r = solve.check(ob.hyps, ob.goal, extra=ex.global_facts, post=post, want_model=post is not None)
             rec = {"oid": ob.oid, "clause": ob.clause, "site": ob.site, "line": ob.line, "status": r.status,
                    "backend": r.backend, "time": round(r.time, 4), "note": ob.note, "exc": ob.exc,
                    "reason": r.reason, "cex": None, "outside_known": None}
             if r.status != "unsat":
-                if want_cex and r.model is not None and out["kind"] != "lemma":
-                    try:
-                        rec["cex"] = cex.extract_inputs(ex, r.model)
-                    except Exception as err:
-                        rec["cex_error"] = repr(err)
+                if isinstance(r.model, dict):
+                    rec["cex"] = r.model.get("cex")
+                    if r.model.get("cex_error"):
+                        rec["cex_error"] = r.model["cex_error"]
                 # known-finding regions: is the obligation discharged outside them?
                 regions = [kf for kf in known_regions if kf.get("oid") == ob.oid and kf.get("region")]
                 if regions and ex.entry_state is not None:
                     extra_h = []
                     for kf in regions:
                         extra_h.append(z3.Not(ex.ev_spec(kf["region"], ex.entry_state)))
-                    r2 = solve.check(ob.hyps + extra_h, ob.goal, extra=ex.global_facts, want_model=True)
+                    r2 = solve.check(ob.hyps + extra_h, ob.goal, extra=ex.global_facts, want_model=True, post=post)
                     rec["outside_known"] = r2.status
-                    if r2.status != "unsat" and r2.model is not None:
-                        try:
-                            rec["cex_outside"] = cex.extract_inputs(ex, r2.model)
-                        except Exception:
-                            pass
+                    if r2.status != "unsat" and isinstance(r2.model, dict) and r2.model.get("cex"):
+                        rec["cex_outside"] = r2.model["cex"]
             out["obligations"].append(rec)
         out["solve_s"] = time.time() - t1
     except StaleContract as err:
@@ -186,8 +190,28 @@ def select_units(reg, pid):
         else:
             tags = reg.contracts[name].tags
         if pid in tags:
-            units.append(name)
+            units.extend(expand_instances(reg, name))
     return units
+
+
+def expand_instances(reg, name, like=None):
+    """Units of a contract: one per declared instance (or the one matching the caller's instance)."""
+    from pyvc.contracts import split_unit, unit_name
+    c = reg.contracts.get(name)
+    if c is None or not c.instances:
+        return [name]
+    if like:
+        _b, inst = split_unit(like)
+        if inst and inst in c.instances:
+            return [unit_name(name, inst)]
+    return [unit_name(name, inst) for inst in c.instances]
+
+
+def contract_of(reg, unit):
+    from pyvc.contracts import split_unit
+    if unit in reg.harnesses:
+        return reg.harnesses[unit].contract
+    return reg.contracts.get(split_unit(unit)[0])
 
 
 def param_types_of(reg, repo, unit):
@@ -197,8 +221,9 @@ def param_types_of(reg, repo, unit):
         if unit in reg.harnesses:
             c = reg.harnesses[unit].contract
             return dict(c.params)
-        c = reg.contracts[unit]
-        mi, ci, fn = repo.find_function(unit)
+        from pyvc.contracts import split_unit
+        c = reg.contracts[split_unit(unit)[0]]
+        mi, ci, fn = repo.find_function(split_unit(unit)[0])
         out = {}
         names = [a.arg for a in fn.args.args]
         for i, n in enumerate(names):
@@ -260,9 +285,12 @@ def decide(pid: str, tier: str, seed: int, verbose=False, only_units=None) -> in
             pending = []
             for res in pool.imap_unordered(verify_unit, jobs):
                 results[res["unit"]] = res
-                for dep in res["used_contracts"]:
-                    if dep not in results and dep not in pending and dep in reg.contracts:
-                        pending.append(dep)
+                for dep0 in res["used_contracts"]:
+                    if dep0 not in reg.contracts:
+                        continue
+                    for dep in expand_instances(reg, dep0, like=res["unit"]):
+                        if dep not in results and dep not in pending:
+                            pending.append(dep)
     # ------------------------------------------------------------------ judge
     violations = []      # (unit, ob, replay_path, suffix)
     undecided = []
@@ -272,6 +300,7 @@ def decide(pid: str, tier: str, seed: int, verbose=False, only_units=None) -> in
     by_backend = {}
     solver_time = 0.0
     samples = []
+    slow = []
     failing = []
     outside_subset = []
     for u in sorted(results):
@@ -295,6 +324,8 @@ def decide(pid: str, tier: str, seed: int, verbose=False, only_units=None) -> in
             if ob["status"] == "unsat":
                 n_dis += 1
                 by_backend[ob["backend"]] = by_backend.get(ob["backend"], 0) + 1
+                if ob["backend"] != "z3" or ob["time"] > 5:
+                    slow.append({"obligation": ob["oid"], "backend": ob["backend"], "time_s": ob["time"], "line": ob["line"]})
                 if len(samples) < 6:
                     samples.append({"obligation": ob["oid"], "backend": ob["backend"], "time_s": ob["time"],
                                     "clause_text": ob["note"][:160]})
@@ -346,8 +377,10 @@ def decide(pid: str, tier: str, seed: int, verbose=False, only_units=None) -> in
             types = ptypes_cache.setdefault(u, param_types_of(reg, repo, u))
             if types:
                 seeds = [x for x in (ob.get("cex"), ob.get("cex_outside")) if x]
-                c = reg.harnesses[u].contract if u in reg.harnesses else reg.contracts.get(u)
-                seeds += [json.loads(json.dumps(w, default=_enc)) for w in (c.witness if c else [])]
+                c = contract_of(reg, u)
+                seeds += [json.loads(json.dumps({k: v for k, v in w.items() if k != "$instance"}, default=_enc))
+                          for w in (c.witness if c else [])
+                          if not (isinstance(w, dict) and "$instance" in w and w["$instance"] != _split_unit(u)[1])]
                 n = 400 if tier == "quick" else 4000
                 sp = {"n": n, "seed": seed, "types": types, "classes": cf, "seeds": seeds}
                 spath = write_replay(u, dict(ob, oid=ob["oid"] + "#search"), search=sp, extra={"exclude_regions": excl})
@@ -385,10 +418,15 @@ def decide(pid: str, tier: str, seed: int, verbose=False, only_units=None) -> in
     witness_runs = 0
     witness_fail = []
     for u in sorted(results):
-        c = reg.harnesses[u].contract if u in reg.harnesses else reg.contracts.get(u)
+        c = contract_of(reg, u)
         if c is None or not c.witness or results[u]["status"] != "ok":
             continue
+        from pyvc.contracts import split_unit as _split
         for i, w in enumerate(c.witness[:2]):
+            if isinstance(w, dict) and "$instance" in w:
+                if w["$instance"] != _split(u)[1]:
+                    continue
+                w = {k: v for k, v in w.items() if k != "$instance"}
             enc = json.loads(json.dumps(w, default=_enc))
             wp = write_replay(u, {"oid": f"{u}::witness[{i}]", "clause": "witness", "site": "", "line": 0,
                                   "note": "", "status": "", "reason": "", "backend": ""}, inputs=enc)
@@ -423,6 +461,7 @@ def decide(pid: str, tier: str, seed: int, verbose=False, only_units=None) -> in
             "functions_under_contract": functions,
             "by_backend": by_backend, "solver_time_s": round(solver_time, 3),
             "samples": samples,
+            "needed_fallback_or_slow": slow,
             "failing_obligations": [{"unit": u, "oid": ob["oid"], "status": ob["status"], "reason": ob.get("reason")}
                                     for u, ob in failing],
             "outside_subset": outside_subset,
